@@ -1855,7 +1855,7 @@ func (x *Exec) sliceKey(st *State, kv *KeyVal, lo, hi *Term, in *ssa.Slice) Val 
 // coinsElemCell: coins[i] on the abstract coins value (Array Str Int): the i-th listed coin.
 func (x *Exec) coinsElemCell(f *Frame, st *State, c *Term, idx *Term, in *ssa.IndexAddr) Val {
 	ln := UF("coins_len", SInt, c)
-	st.assume(Ge(ln, IntLit(0)))
+	st.assume(lenRange(ln))
 	x.panicSite(f, st, Or(Lt(idx, IntLit(0)), Ge(idx, ln)), "index out of range at "+x.pos(in.Pos()))
 	d := UF("coins_denom_at", SStr, c, idx)
 	amt := Select(c, d)
